@@ -310,6 +310,13 @@ def r4_pure_shift(ctx):
     fc = [c for c in calls_in(lc.node) if call_name(c) == "fit_into_array"]
     ok = len(fc) == 1 and norm(kw(fc[0], "relative_position")) == "(position_y, position_x)" and dotted(kw(fc[0], "output_shape")) == "shape" and dotted(kw(fc[0], "align")) == "align" and norm(expand(lc, kw(fc[0], "array"))) == "load_image(filename)"
     ctx.check(ok, lc.qual, "fit_into_array(load_image(filename), shape, (position_y, position_x), align)" if ok else "loader passes position/shape/alignment in the wrong slots", where=lc, node=fc[0] if fc else lc.node)
+    # ... on EVERY path: whatever the input's shape, what is returned went through fit_into_array (a
+    # shortcut for "already the right shape" would ignore the requested offset / alignment)
+    from sa.paths import enumerate_paths as _ep
+
+    for q_ in [x for x in _ep(lc.node.body) if x.exit == "return"]:
+        okp = len(q_.called("fit_into_array")) == 1
+        ctx.check(okp, lc.qual + "#always-placed", "the returned image is the result of fit_into_array" if okp else f"on the path {q_.cond_texts()} the image is returned without being placed by fit_into_array: offset / alignment are ignored", where=lc, node=q_.exit_node or lc.node)
     pub = ctx.func(f"{IMG}:load_cropped_and_aligned_image")
     fwd = [c for c in calls_in(pub.node) if call_name(c) == "_load_cropped_and_aligned_image"]
     if fwd:
